@@ -78,9 +78,28 @@ ROUTES = ("int", "EPSG", "epsg", "wkt", "json", "pyproj", "pyproj-new", "crs", "
 A0 = Affine(10.0, 0.0, 500000.0, 0.0, -10.0, 6000000.0)
 
 
-def _gcp_mapping(k=0, crs="EPSG:4326"):
+def _gcp_mapping(k=0, crs="EPSG:4326", enc="f8"):
+    """enc: how the same control-point values are encoded when handed in (the constructor keeps arrays as given):
+    f8 | i8-pix (integer pixel coordinates) | f4 (all values are exactly representable in float32) |
+    negzero (-0.0 where the value is 0) | list (nested python lists) | fortran (column-major) | strided (view)."""
     pix = [(0, 0), (10, 0), (0, 10), (10, 10), (5, 5)]
     wld = [(x * 0.5 + 100 + k, 20 - y * 0.25) for x, y in pix]
+    if enc == "i8-pix":
+        return GCPMapping(np.asarray(pix, dtype='int64'), np.asarray(wld, dtype='float64'), crs)
+    if enc == "f4":
+        return GCPMapping(np.asarray(pix, dtype='float32'), np.asarray(wld, dtype='float32'), crs)
+    if enc == "negzero":
+        p = np.asarray(pix, dtype='float64')
+        p[p == 0] = -0.0
+        return GCPMapping(p, np.asarray(wld, dtype='float64'), crs)
+    if enc == "fortran":
+        return GCPMapping(np.asfortranarray(np.asarray(pix, dtype='float64')), np.asfortranarray(np.asarray(wld, dtype='float64')), crs)
+    if enc == "strided":
+        big_p = np.zeros((5, 4), dtype='float64')
+        big_w = np.zeros((5, 4), dtype='float64')
+        big_p[:, ::2] = pix
+        big_w[:, ::2] = wld
+        return GCPMapping(big_p[:, ::2], big_w[:, ::2], crs)
     return GCPMapping(np.asarray(pix, dtype='float64'), np.asarray(wld, dtype='float64'), crs)
 
 
@@ -154,6 +173,13 @@ def families():
         ("gcp-evaluated", 1, lambda: _evaluated(GCPGeoBox((11, 11), m_shared))),
         ("gcp-eps-affine", 6, lambda: GCPGeoBox((11, 11), m_shared, Affine.translation(1e-9, 0))),
         ("gcp-eps-point", 7, lambda: GCPGeoBox((11, 11), _gcp_mapping(1e-9))),
+        # same control-point values handed in under another array encoding
+        ("gcp-enc-i8pix", 1, lambda: GCPGeoBox((11, 11), _gcp_mapping(enc="i8-pix"))),
+        ("gcp-enc-f4", 1, lambda: GCPGeoBox((11, 11), _gcp_mapping(enc="f4"))),
+        ("gcp-enc-negzero", 1, lambda: GCPGeoBox((11, 11), _gcp_mapping(enc="negzero"))),
+        ("gcp-enc-fortran", 1, lambda: GCPGeoBox((11, 11), _gcp_mapping(enc="fortran"))),
+        ("gcp-enc-strided", 1, lambda: GCPGeoBox((11, 11), _gcp_mapping(enc="strided"))),
+        ("gcp-enc-f4-mapping1", 4, lambda: GCPGeoBox((11, 11), _gcp_mapping(1, enc="f4"))),
     ]
     F["Tiles"] = [
         ("t-10-4", 1, lambda: Tiles((10, 10), (4, 4))),
